@@ -27,6 +27,12 @@ func probeMain(args []string) {
 	code := resContract()
 	if args[0] == "att" {
 		code = attContract
+	} else if strings.HasPrefix(args[0], "file:") {
+		cb, err := os.ReadFile(args[0][5:])
+		if err != nil {
+			panic(err)
+		}
+		code = string(cb)
 	}
 	for _, vm := range []bool{false, true} {
 		w := host.NewWorld()
